@@ -192,6 +192,9 @@ func (p *Program) Reach(roots ...*ssa.Function) map[*ssa.Function]bool {
 		}
 	}
 	for _, r := range roots {
+		if p.rootsUsed != nil && r != nil && IsModuleFunc(r) && !p.auditing {
+			p.rootsUsed[r] = true
+		}
 		push(r)
 	}
 	if p.succCache == nil {
